@@ -192,9 +192,6 @@ def r12_2(ctx: Ctx) -> None:
                "record (only locations are restored afterwards, so an aliased feature would keep renumbered and "
                "region-relative qualifiers in the full record)",
                detail="; ".join(stmt_key(x) for x in appended + stores), form="")
-    copies = [c for c in calls(builder) if call_name(c) in ("deepcopy", "copy.deepcopy")]
-    ctx.ob("R12.2", HELP, builder, "_build_record_from_cross_origin", "copy made", bool(copies),
-           "a deep copy is taken of each origin-spanning feature", form="; ".join(txt(c) for c in copies))
 
 
 def r12_3(ctx: Ctx) -> None:
@@ -305,7 +302,7 @@ def r12_4(ctx: Ctx) -> None:
 
 def run(ctx: Ctx) -> None:
     ctx.rule("R12.1", "writer/adjuster agreement on run-specific cross-reference qualifiers", floor=14)
-    ctx.rule("R12.2", "snapshot/restore of locations; no aliasing of parent features", floor=5)
+    ctx.rule("R12.2", "snapshot/restore of locations; no aliasing of parent features", floor=4)
     ctx.rule("R12.3", "renumbering n - first + 1 per family; wrapping location shifts", floor=12)
     r12_1(ctx)
     r12_2(ctx)
